@@ -33,7 +33,7 @@ func init() {
 func dpBody(c *explore.C, prop string) {
 	root := c.Choose(2, explore.Data, "top-level-type") // 0: DP itself (recursive root), 1: DPOuter
 	pos := c.Choose(4, explore.Data, "position")        // Next, Kids, ByVal, Vals
-	mask := c.Choose(8, explore.Data, "fields-away-from-default")
+	mask := c.Choose(16, explore.Data, "fields-away-from-default")
 	second := c.Choose(3, explore.Data, "second-element")
 	deep := c.Bool(explore.Data, "two-levels")
 	harness.Cur.Crumb(c.Choices())
@@ -54,6 +54,9 @@ func dpBody(c *explore.C, prop string) {
 		if m&4 != 0 {
 			v.F[3] = ref.List(ref.KList, ref.Int(ref.KI32, 9))
 		}
+		if m&8 != 0 {
+			v.F[3] = ref.NilOf(ref.KList) // nil: omitted on the wire, the reader sees the declared default list
+		}
 		if inner != nil {
 			v.F[5] = inner
 		}
@@ -61,7 +64,7 @@ func dpBody(c *explore.C, prop string) {
 	}
 	var inner *ref.Val
 	if deep {
-		inner = mkv(mask^7, nil)
+		inner = mkv(mask^15, nil)
 	}
 	el := []*ref.Val{mkv(mask, inner)}
 	switch second {
@@ -92,7 +95,7 @@ func dpBody(c *explore.C, prop string) {
 		V.F[0] = top
 		V.F[1] = &ref.Val{K: ref.KMap, M: [][2]*ref.Val{{ref.Int(ref.KI32, 1), mkv(mask, nil)}, {ref.Int(ref.KI32, 2), mkv(0, nil)}}}
 	}
-	how := fmt.Sprintf("top=%d position=%d mask=%03b second=%d deep=%v", root, pos, mask, second, deep)
+	how := fmt.Sprintf("top=%d position=%d mask=%04b second=%d deep=%v", root, pos, mask, second, deep)
 	want := ref.Encode(S, V)
 	buf := make([]byte, len(want)+32)
 	r := Enc(buf, universe.New(S, V).Interface())
